@@ -82,6 +82,11 @@ CLAIMED = {
    "DESIGN.md §6 C09",
    "sampling in child processes; partial by nature (DESIGN §6 C09); repetition counts bounded as the property states.",
    "child-process totality sampling on mutated grammars + Lean 4 lemmas on modelled panic sites"),
+ "C07": ("other",
+   "Round trip on the implementation: random abstract rule sets are written in pest syntax with a random LEGAL spelling (only the parentheses precedence requires, arbitrary spacing, block/line/doc comments, leading |, per-character escape forms, leading-zero counts) and must read back as the same rules (oracle: the abstract grammar), in two builds (default, grammar-extras). Lean side: a model of unescape, the number parsers and the operator-precedence stage (C13's Pratt parser with the reader's table), with theorems unescape_spell, unescape_unicode_none, count_roundtrip, index_roundtrip, pratt_rebuilds (being proved), tied by a correspondence on thousands of literal bodies through the real reader vs the Lean reader (reference denotation of the REGENERATED meta-grammar + unescape model). read_print for arbitrary spacing is only sampled: partial.",
+   "DESIGN.md §6 C07",
+   "round trip sampling with the abstract grammar as oracle; Lean kernel for the proved parts; regenerated meta-grammar.",
+   "print/read round trip with random spellings + Lean 4 theorems on unescape / numbers / precedence stage"),
 }
 REASON_TODO = "not claimed yet: machinery for this property is not built in the committed tree (planned in DESIGN.md §6); no check is registered rather than an unsound one"
 
